@@ -118,7 +118,11 @@ func GenSubject(r *rand.Rand) (string, string) {
 		return "x", "1-char"
 	case 1: // precedence markers
 		p := []string{"//WL2K Z/", "//WL2K O/", "//WL2K P/", "//WL2K R/"}[r.Intn(4)]
-		return p + " exercise " + fmt.Sprint(r.Intn(1000)), "precedence " + p
+		n := r.Intn(1000)
+		if n%2 == 0 { // the marker in a subject that also has non-ASCII characters (word-encoded on the wire)
+			return qEncodeLatin1([]byte(fmt.Sprintf("%s \xf8velse %d", p, n))), "precedence-latin1 " + p
+		}
+		return p + " exercise " + fmt.Sprint(n), "precedence " + p
 	case 2: // long ASCII (up to the 128 byte header limit)
 		n := 81 + r.Intn(48)
 		return strings.Repeat("s", n), fmt.Sprintf("ascii-%d", n)
